@@ -59,6 +59,43 @@ def _rebuild_deque(items, uid, nxt):
     return d
 
 
+def h60(b: bytes):
+    d = hashlib.sha1(b).digest()
+    return [int.from_bytes(d[:4], "big") & (2 ** 30 - 1), int.from_bytes(d[4:8], "big") & (2 ** 30 - 1)]
+
+
+class RecordingRows:
+    """any other container of pre-drawn rows that is consumed through popleft(): rows of floats are identified by
+    their values (bit-equal rows of normals are the same row), rows of counts by the number of the pop"""
+
+    def __init__(self, inner, uid):
+        self.inner, self.uid, self.next = inner, uid, 0
+
+    def popleft(self):
+        v = self.inner.popleft()
+        a = np.asarray(v)
+        if a.dtype.kind == "f" and a.size:
+            STATE["pops"].append([self.uid] + h60(np.ascontiguousarray(a).tobytes()))
+        else:
+            STATE["pops"].append([self.uid, self.next])
+        self.next += 1
+        return v
+
+    def __len__(self):
+        return len(self.inner)
+
+    def __getattr__(self, name):
+        if name in ("inner", "uid", "next"):
+            raise AttributeError(name)
+        return getattr(self.inner, name)
+
+
+def recording(container, uid):
+    if isinstance(container, deque):
+        return RecordingDeque(container, uid)
+    return RecordingRows(container, uid)
+
+
 def install():
     """class-level observation points"""
     import rpylib.montecarlo.configuration as cfg
@@ -96,7 +133,7 @@ def install():
             vals = np.ascontiguousarray(np.asarray(p.jump_path, dtype=float)).tobytes() + \
                 np.ascontiguousarray(np.asarray(p.diffusion_path, dtype=float)).tobytes()
             tag = {"pid": os.getpid(), "pseq": STATE["pseq"], "fp0": fp0, "fp1": fp1, "rows": list(STATE["pops"]),
-                   "vh": h30(vals), "seeds": list(STATE["seeds"])}
+                   "vh": h30(vals), "vh2": h60(vals), "seeds": list(STATE["seeds"])}
             STATE["seeds"] = []
             t = TaggedPath(p.jump_times, p.diffusion_path, p.jump_path)
             t.tag = tag
@@ -115,8 +152,8 @@ def install():
         fp1 = fingerprint()
         STATE["dq"] += 1
         uid = STATE["dq"]
-        self._brownian_increments = RecordingDeque(self._brownian_increments, 2 * uid)
-        self._poisson_rv = RecordingDeque(self._poisson_rv, 2 * uid + 1)
+        self._brownian_increments = recording(self._brownian_increments, 2 * uid)
+        self._poisson_rv = recording(self._poisson_rv, 2 * uid + 1)
         STATE["parent_log"].append({"e": "PreDraw", "pid": os.getpid(), "fp0": fp0, "fp1": fp1, "n": int(mc_paths), "dq": uid,
                                     "seeds": list(STATE["seeds"])})
         STATE["seeds"] = []
@@ -137,16 +174,24 @@ def exp_hem():
     return create_exponential_of_levy_model(ModelType.HEM)(spot=100.0, r=0.02, d=0.0, sigma=0.1, p=0.6, eta1=20, eta2=25, intensity=3)
 
 
-def product(nd):
-    from rpylib.product.payoff import PayoffType, Vanilla
+def product(mode):
+    """mode 'fixed': the path is simulated on the product dates from pre-drawn rows;
+    mode 'jump': the payoff dates depend on the path, the engines simulate the path at its jump times (nothing pre-drawn)"""
+    from rpylib.product.payoff import PayoffDates, PayoffType, Vanilla
     from rpylib.product.product import Product
-    from rpylib.product.underlying import Asian, Discretisation, Spot
-    if nd == 1:
-        return Product(Spot(), Vanilla(strike=100.0, payoff_type=PayoffType.CALL), maturity=0.5)
-    return Product(Asian(Discretisation.MONTHLY), Vanilla(strike=100.0, payoff_type=PayoffType.CALL), maturity=0.25)
+    from rpylib.product.underlying import Spot
+    payoff = Vanilla(strike=100.0, payoff_type=PayoffType.CALL)
+    if mode == "jump":
+        payoff.payoff_dates_type = PayoffDates.STOCHASTIC
+    return Product(Spot(), payoff, maturity=0.5)
 
 
-def one_run(engine_kind, proc_kind, nproc, seed, npaths):
+def exp_bs():
+    from rpylib.model.utils import create_exponential_of_levy_model, ModelType
+    return create_exponential_of_levy_model(ModelType.BLACKSCHOLES)(spot=100.0, r=0.02, d=0.0, sigma=0.2)
+
+
+def one_run(engine_kind, proc_kind, nproc, seed, npaths, mode="fixed"):
     """returns (events, price)"""
     from rpylib.distribution.sampling import SamplingMethod
     from rpylib.grid.spatial import CTMCUniformGrid
@@ -158,10 +203,12 @@ def one_run(engine_kind, proc_kind, nproc, seed, npaths):
     STATE["parent_log"] = []
     STATE["seeds"] = []
     model = exp_hem()
-    prod = product(1)
+    prod = product(mode)
     if engine_kind == "std":
         import rpylib.montecarlo.standard.engine as eng
-        if proc_kind == "direct":
+        if proc_kind == "bs":
+            proc = LevyProcess(exp_bs())
+        elif proc_kind == "direct":
             proc = LevyProcess(model)
         else:
             grid = CTMCUniformGrid(h=0.1, model=model, truncation_probability=0.999)
@@ -209,11 +256,17 @@ def main():
         for pk in proc_kinds:
             for nproc in (1, 2):
                 for seed in (1234, None):
-                    cases.append((engine_kind, pk, nproc, seed))
+                    cases.append((engine_kind, pk, nproc, seed, "fixed"))
+    # jump-time simulation mode: jump times, jump sizes and Brownian increments are all drawn on the fly
+    for ek, pk in (("std", "direct"), ("std", "chain"), ("mlmc", "adaptive"), ("mlmc", "fixedlevels")):
+        for nproc, seed in ((1, 1234), (1, None), (2, 1234)):
+            cases.append((ek, pk, nproc, seed, "jump"))
     from harness.encode import ranks
-    for (ek, pk, nproc, seed) in cases:
+    for (ek, pk, nproc, seed, mode) in cases:
         npaths = 5 if quick else 9
-        hdr = {"kind": f"{ek}:{pk}:np{nproc}:{'seed' if seed else 'noseed'}", "nproc": nproc, "seeded": seed is not None,
+        if mode == "jump":
+            npaths = 12 if quick else 25        # enough paths for some to have jumps
+        hdr = {"kind": f"{ek}:{pk}:{mode}:np{nproc}:{'seed' if seed else 'noseed'}", "nproc": nproc, "seeded": seed is not None,
                "single": nproc == 1}
         ev = []
         try:
@@ -222,7 +275,7 @@ def main():
                 # the ambient generator state differs from run to run (as it does between two program starts)
                 np.random.seed(None)
                 STATE["seeds"] = []
-                e, price = one_run(ek, pk, nproc, seed, npaths)
+                e, price = one_run(ek, pk, nproc, seed, npaths, mode)
                 ev.append({"e": "Run", "n": run})
                 ev += e
                 prices.append(price)
@@ -230,6 +283,25 @@ def main():
             ev.append({"e": "Results", "prices": rk})
         except Exception as ex:
             import traceback
+            ev.append({"e": "Raise", "what": type(ex).__name__ + ": " + str(ex)[:100]})
+        traces.append({"tid": f"r{len(traces)}", "hdr": hdr, "ev": ev})
+    # one pass with more samples than any block a container of pre-drawn rows may be cut into (2^16 < n): the samples are
+    # condensed into one event, TLC decides distinctness by the cardinality of the sets
+    for (ek, pk, n) in ([("std", "bs", 66000)] if quick else [("std", "bs", 140000), ("std", "direct", 70000)]):
+        hdr = {"kind": f"bulk:{ek}:{pk}:{n}", "nproc": 1, "seeded": True, "single": True}
+        ev = []
+        try:
+            np.random.seed(None)
+            STATE["seeds"] = []
+            e, price = one_run(ek, pk, 1, 4321, n, "fixed")
+            smp = [x for x in e if x["e"] == "Sample"]
+            ev.append({"e": "Run", "n": 1})
+            ev += [x for x in e if x["e"] != "Sample"]
+            ev.append({"e": "Bulk", "n": len(smp), "want": n, "vh": [x["vh2"] for x in smp],
+                       "rows": [r for x in smp for r in x["rows"]], "nrows": sum(len(x["rows"]) for x in smp),
+                       "fp0": [x["fp0"] for x in smp if x["fp0"] != x["fp1"]],
+                       "seeds": [sd for x in smp for sd in x["seeds"]]})
+        except Exception as ex:
             ev.append({"e": "Raise", "what": type(ex).__name__ + ": " + str(ex)[:100]})
         traces.append({"tid": f"r{len(traces)}", "hdr": hdr, "ev": ev})
     with open(out, "w") as f:
